@@ -1,3 +1,4 @@
+import GlareModel.Core.Varint
 import GlareModel.Core.Footer
 import GlareModel.Core.Csv
 import GlareModel.Core.Rle
@@ -101,5 +102,70 @@ theorem decode_weight_le (d q : Nat) (s : Dec) (chunk : List Nat) :
 /-! ## RLE / bit-packed hybrid: truncated input is reported (from C10) -/
 
 example : Rle.readN 9 { bytes := [3, 255], width := 1 } = none := by decide
+
+/-! ## Thrift varints (`thrift.rs`, `read_vlq`; model `Core/Varint.lean`, tied by `gvh varint`) -/
+section Varints
+open GlareModel.Varint
+
+/-- The repaired reader never evaluates a shift of 64 or more, on any input. -/
+theorem vlq_checked_never_overflows (acc shift consumed : Nat) (bytes : List Nat) :
+    ∀ s, readVlqFrom true acc shift consumed bytes ≠ .shiftOverflow s := by
+  induction bytes generalizing acc shift consumed with
+  | nil => intro s; simp [readVlqFrom]
+  | cons b bs ih =>
+    intro s
+    simp only [readVlqFrom]
+    split
+    · simp
+    · split
+      · simp
+      · exact ih _ _ _ s
+
+/-- A successfully read varint consumed at most ten bytes and at most what was there. -/
+theorem vlq_consumed_bound (c : Bool) (acc shift consumed : Nat) (bytes : List Nat) (v n : Nat)
+    (hs : shift = 7 * consumed)
+    (h : readVlqFrom c acc shift consumed bytes = .ok v n) : n ≤ 10 ∧ n ≤ consumed + bytes.length ∧ v < 2 ^ 64 := by
+  induction bytes generalizing acc shift consumed with
+  | nil => simp [readVlqFrom] at h
+  | cons b bs ih =>
+    simp only [readVlqFrom] at h
+    split at h
+    · split at h <;> simp at h
+    · rename_i hsh
+      split at h
+      · injection h with h1 h2
+        subst h1 h2
+        refine ⟨by omega, by simp, ?_⟩
+        exact Nat.mod_lt _ (by decide)
+      · have := ih _ (shift + 7) (consumed + 1) (by omega) h
+        simp only [List.length_cons]
+        omega
+
+theorem vlq_total_from (acc shift consumed : Nat) (bytes : List Nat) :
+    (∃ v n, readVlqFrom true acc shift consumed bytes = .ok v n) ∨ readVlqFrom true acc shift consumed bytes = .eof ∨
+      readVlqFrom true acc shift consumed bytes = .tooLong := by
+  induction bytes generalizing acc shift consumed with
+  | nil => simp [readVlqFrom]
+  | cons b bs ih =>
+    simp only [readVlqFrom]
+    split
+    · simp
+    · split
+      · exact Or.inl ⟨_, _, rfl⟩
+      · exact ih _ _ _
+
+/-- The reader is total: every byte string gives a value, end of input, or (repaired) "too long". -/
+theorem vlq_total (bytes : List Nat) :
+    (∃ v n, readVlq true bytes = .ok v n) ∨ readVlq true bytes = .eof ∨ readVlq true bytes = .tooLong :=
+  vlq_total_from 0 0 0 bytes
+
+/-- The pinned commit on eleven continuation bytes: the eleventh shift is by 70 (F62). -/
+theorem vlq_unchecked_overflows :
+    readVlq false (List.replicate 11 0x80) = .shiftOverflow 70 := by decide
+
+example : readVlq true [0xAC, 0x02] = .ok 300 2 := by decide
+example : readVlq true (List.replicate 11 0x80) = .tooLong := by decide
+
+end Varints
 
 end GlareModel.Props.C19
